@@ -1113,6 +1113,26 @@ func (c *Ctx) producerKinds(f *types.Func, pvCases map[string]bool, depth int) (
 func c04Determinism(c *Ctx) {
 	core := parseClosure(c)
 	c.R.Floor("C04.R6", len(core), 3)
+	// what ParseList / ParseObject reach: there the outcome must be a function of the text alone. Reading the file is ParseFile's
+	// business — in its own body or in a private reader it shares with other file-based entry points, not reachable from the text parsers
+	fromText := map[string]bool{}
+	{
+		a := c.E3()
+		var visit func(name string)
+		visit = func(name string) {
+			if fromText[name] {
+				return
+			}
+			fromText[name] = true
+			if fn := a.ByName(name); fn != nil {
+				for _, cal := range a.calleeNames(fn) {
+					visit(cal)
+				}
+			}
+		}
+		visit("ParseList")
+		visit("ParseObject")
+	}
 	for _, fd := range core {
 		name := declName(fd)
 		why := ""
@@ -1134,7 +1154,7 @@ func c04Determinism(c *Ctx) {
 					case "time", "math/rand", "math/rand/v2", "crypto/rand", "runtime":
 						why = "call into " + f.Pkg().Path()
 					case "os":
-						if !(name == "ParseFile" && f.Name() == "ReadFile") {
+						if !(!fromText[name] && f.Name() == "ReadFile") {
 							why = "call of os." + f.Name()
 						}
 					}
